@@ -312,6 +312,21 @@ func runC17(cs c17Case) *Outcome {
 				if msg.Authority != govAddr {
 					o.dev("", "step %d (%+v): params updated by a non-governance authority", si, st)
 				}
+				// an accepted update is stored as requested: the whitelist is exactly the requested set (also the empty one)
+				if after.Ver != st.Version {
+					o.dev("", "step %d (%+v): accepted params update stored protocol version %d, requested %d", si, st, after.Ver, st.Version)
+				}
+				if len(after.WL) != len(wl) {
+					o.dev("", "step %d (%+v): accepted params update stored %d whitelisted deployers, requested %d", si, st, len(after.WL), len(wl))
+				}
+				for _, d := range wl {
+					if !after.WL[d] {
+						o.dev("", "step %d (%+v): accepted params update did not whitelist %s", si, st, d)
+					}
+				}
+				if len(wl) == 0 {
+					o.label("whitelist-cleared")
+				}
 			} else {
 				o.label("params-refused")
 				if after.Ver != before.Ver || len(after.WL) != len(before.WL) {
